@@ -939,6 +939,44 @@ theorem migrate_current_unchanged (fresh : Nat → Value) (fadd : Bytes → Opti
   unfold migrateFlow
   simp [h]
 
+
+/-- **migrate_keeps_request_partial.** One turn of the composed loop on a record of an integer format 12 … 20 (no stale
+    bytes `version` key) leaves request, id and type as they are and moves the version on by one — the loop invariant of
+    "a record of a recent format comes out of migrate_flow with the request that was recorded". (Stated per turn; the
+    whole-loop form needs "no converter introduces a bytes key", true of all of them but not proved here.) -/
+theorem migrate_turn_keeps_request (fresh : Nat → Value) (fadd : Bytes → Option Bytes) (st st' : MigSt) (d d' : Dict) (n : Nat)
+    (hn : 12 ≤ n ∧ n ≤ 20) (h : convAny fresh fadd st (.int n) d = some (some (st', d'))) :
+    st' = st ∧ dget d' (s "request") = dget d (s "request") ∧ dget d' (s "id") = dget d (s "id") ∧
+    dget d' (s "type") = dget d (s "type") ∧ dget d' (s "version") = some (.int (n + 1)) := by
+  have h4 : ¬ ((n : Int) = 4) := by omega
+  have h11 : ¬ ((n : Int) = 11) := by omega
+  have hneg : ¬ ((n : Int) < 0) := by omega
+  by_cases h13 : (n : Int) = 13
+  · have hn13 : n = 13 := by omega
+    subst hn13
+    have e : convAny fresh fadd st (.int ((13 : Nat) : Int)) d = some ((conv_13_14F fadd d).map (fun d' => (st, d'))) := by
+      simp [convAny]
+    rw [e] at h
+    simp only [Option.some.injEq, Option.map_eq_some_iff, Prod.mk.injEq] at h
+    obtain ⟨x, hx, rfl, rfl⟩ := h
+    refine ⟨rfl, ?_, ?_, ?_, ?_⟩
+    · rw [body_13F fadd d _ _ hx (by decide +kernel) (by decide +kernel)]; exact dget_dset_ne _ _ _ _ (by decide +kernel)
+    · rw [body_13F fadd d _ _ hx (by decide +kernel) (by decide +kernel)]; exact dget_dset_ne _ _ _ _ (by decide +kernel)
+    · rw [body_13F fadd d _ _ hx (by decide +kernel) (by decide +kernel)]; exact dget_dset_ne _ _ _ _ (by decide +kernel)
+    · rw [body_13F fadd d _ _ hx (by decide +kernel) (by decide +kernel)]; exact dget_dset_same _ _ _
+  · simp only [convAny, h4, h11, h13, hneg, if_false, Int.toNat_natCast] at h
+    cases hc : conv n with
+    | none =>
+      exfalso
+      obtain ⟨a, b⟩ := hn
+      have : n = 12 ∨ n = 13 ∨ n = 14 ∨ n = 15 ∨ n = 16 ∨ n = 17 ∨ n = 18 ∨ n = 19 ∨ n = 20 := by omega
+      rcases this with rfl | rfl | rfl | rfl | rfl | rfl | rfl | rfl | rfl <;> simp [conv] at hc
+    | some f =>
+      simp only [hc, Option.orElse_some, Option.some.injEq, Option.map_eq_some_iff, Prod.mk.injEq] at h
+      obtain ⟨x, hx, rfl, rfl⟩ := h
+      obtain ⟨r1, r2, r3, _, _⟩ := request_preserved n f d _ hc hx
+      exact ⟨rfl, r1, r2, r3, by have := conv_writes_next_version n f d _ hc hx; simpa using this⟩
+
 /-! #### the whole modelled chain 12 → 21 -/
 
 def chain12_21 (d : Dict) : Option Dict := chain12_18 d >>= conv_18_19 >>= chain19
